@@ -285,7 +285,9 @@ def batch_run(model_cls: Type[Model], parameters: Union[ParameterList, Dict[str,
                 results.append(data)
     else:
         with Pool(processes) as pool:
-            for data in pool.imap_unordered(run_model, skwargs_with_repetition):
+            pending = pool.imap_unordered(run_model, skwargs_with_repetition)
+            for _ in range(len(skwargs_with_repetition)):
+                data = next(pending)  # Not a for loop over 'pending': a StopIteration raised by a run would end it silently
                 if data is not None:
                     results.append(data)
 
